@@ -209,11 +209,14 @@ Section Pure.
 End Pure.
 
 (* ---- coherence of the replayed map with a cluster ------------------------------------------ *)
+(* every entry of the replayed map is a live object with that owner.  (Not the converse: an object
+   held by a finalizer survives its accepted DELETE, while the replay drops its entry; the walk never
+   looks at that identifier again.) *)
 Definition coh (cl : cluster) (cur : list centry) : Prop :=
   forall i : nat,
-    match find_obj (objs cl) i with
-    | None => findc cur i = None
-    | Some c => exists u, findc cur i = Some (i, c_owner c, u)
+    match findc cur i with
+    | None => True
+    | Some x => exists c u, find_obj (objs cl) i = Some c /\ x = (i, c_owner c, u)
     end.
 
 Lemma coh_objs cl cl' cur : objs cl' = objs cl -> coh cl cur -> coh cl' cur.
@@ -224,21 +227,27 @@ Lemma coh_put cl cur n iv nu u :
 Proof.
   intros H i. cbn [objs]. unfold id in *. rewrite find_obj_put, findc_cons_drop.
   destruct (Nat.eqb (c_id n) i) eqn:E; [|apply H].
-  apply Nat.eqb_eq in E. subst i. exists u. reflexivity.
+  apply Nat.eqb_eq in E. subst i. exists n, u. split; reflexivity.
 Qed.
 
 Lemma coh_del cl cur (i : nat) iv nu :
   coh cl cur -> coh (mkCl (del_obj (objs cl) i) iv nu) (dropc cur i).
 Proof.
   intros H j. cbn [objs]. rewrite find_obj_del, findc_drop.
-  destruct (Nat.eqb i j); [reflexivity|apply H].
+  destruct (Nat.eqb i j); [exact I|apply H].
+Qed.
+
+(* an accepted delete that leaves the object (finalizer): the entry is dropped, the cluster is not touched *)
+Lemma coh_drop cl cur (i : nat) : coh cl cur -> coh cl (dropc cur i).
+Proof.
+  intros H j. rewrite findc_drop. destruct (Nat.eqb i j); [exact I|apply H].
 Qed.
 
 Lemma coh_cur0 c0 : coh c0 (cur0 c0).
 Proof.
-  intros i. unfold cur0, findc. induction (objs c0) as [|c t IH]; [reflexivity|].
+  intros i. unfold cur0, findc. induction (objs c0) as [|c t IH]; [exact I|].
   cbn [find_obj map find fst]. destruct (Nat.eqb (c_id c) i) eqn:E; [|exact IH].
-  apply Nat.eqb_eq in E. subst i. exists (c_uid c). reflexivity.
+  apply Nat.eqb_eq in E. subst i. exists c, (c_uid c). split; reflexivity.
 Qed.
 
 (* ---- the invariant of a run ------------------------------------------------------------------ *)
@@ -395,8 +404,8 @@ Section Trav2.
     (forall c, find_obj (objs cl) i = Some c -> can_apply sc (c_owner c) = true) ->
     forall x, findc cur i = Some x -> pol_ok pol (snd (fst x)) = true.
   Proof.
-    intros C H x E. specialize (C i). destruct (find_obj (objs cl) i) as [c|]; [|congruence].
-    destruct C as [u C]. rewrite C in E. injection E as <-. cbn [fst snd]. apply (H c eq_refl).
+    intros C H x E. specialize (C i). rewrite E in C. destruct C as [c [u [F ->]]].
+    cbn [fst snd]. apply (H c F).
   Qed.
 
   Lemma w_kubectl_apply s l :
@@ -485,8 +494,11 @@ Section Trav2.
       rewrite (mc_cl sc s).
       destruct (find_obj (objs (r_cl s)) (c_id c)) as [live|].
       + destruct (N.eqb (c_uid live) (c_uid c)).
-        * apply SK. apply (Inv_log s); [cbn [set_cl r_tr]; apply mc_tr|exact I0|exact I|].
-          cbn [set_cl r_cl]. unfold replay_req. cbn [negb]. apply coh_del. exact C0.
+        * destruct (u_fin (uinfo_of sc (c_id c))).
+          -- apply SK. apply (Inv_log s); [apply mc_tr|exact I0|exact I|].
+             rewrite mc_cl. unfold replay_req. cbn [negb]. apply coh_drop. exact C0.
+          -- apply SK. apply (Inv_log s); [cbn [set_cl r_tr]; apply mc_tr|exact I0|exact I|].
+             cbn [set_cl r_cl]. unfold replay_req. cbn [negb]. apply coh_del. exact C0.
         * apply SK. apply (Inv_log s); [apply mc_tr|exact I0|exact I|rewrite mc_cl; exact C0].
       + apply SK. apply (Inv_log s); [apply mc_tr|exact I0|exact I|rewrite mc_cl; exact C0].
     - (* keep: detach *)
